@@ -34,6 +34,12 @@ V("c01-queue-not-submitted", "C01", "violation", "C01.R6", edits=[("parallel/age
 V("c01-scope-site-wrong-scope", "C01", "violation", "C01.R4", edits=[(SC, "                EventScope.OBSERVATION_GENERATION,\n", "                EventScope.AGENT_PROPAGATION,\n")])
 V("c01-bias-prune-strict-start", "C01", "violation", "C01.R5", edits=[(SA, "and self.julian_date_epoch >= event.start_time_jd", "and self.julian_date_epoch > event.start_time_jd")])
 V("c01-ub-from-prior-plus-dt", "C01", "violation", "C01.R1", edits=[(SC, "                prior_jd,\n                self.clock.julian_date_epoch,\n", "                prior_jd,\n                JulianDate(float(prior_jd) + self.clock.dt_step / 86400.0),\n")])
+SBF = "scenario/scenario_builder.py"
+_LOOP = "        for event_config in sorted(self._config.events, key=lambda x: x.start_time):\n"
+V("c01-load-filter-excludes-stop", "C01", "violation", "C01.R10", edits=[(SBF, _LOOP, _LOOP + "            if event_config.start_time.replace(tzinfo=None) >= self._config.time.stop_timestamp:\n                continue\n")])
+V("c01-load-filter-excludes-running-at-start", "C01", "violation", "C01.R10", edits=[(SBF, _LOOP, _LOOP + "            if event_config.start_time.replace(tzinfo=None) <= self._config.time.start_timestamp:\n                continue\n")])
+V("c01-load-first-ten-events", "C01", "violation", "C01.R10", edits=[(SBF, _LOOP, "        for event_config in sorted(self._config.events, key=lambda x: x.start_time)[:10]:\n")])
+V("c01-n-load-filter-exact", "C01", "pass", edits=[(SBF, _LOOP, _LOOP + "            if event_config.start_time.replace(tzinfo=None) > self._config.time.stop_timestamp or event_config.end_time.replace(tzinfo=None) <= self._config.time.start_timestamp:\n                continue\n")])
 V("c01-n-obsgen-ub-is-next-jd", "C01", "pass", edits=[(SC, "                prior_jd,\n                self.clock.julian_date_epoch,\n", "                prior_jd,\n                next_jd,\n")])
 V("c01-n-store-ub-and-reuse", "C01", "pass", edits=[(SC, "        self.current_julian_date = self.clock.julian_date_epoch\n", "        self.current_julian_date = next_jd\n")])
 V("c01-n-swap-comparison-sides", "C01", "pass", edits=[(EV, "event_alias.start_time_jd <= julian_date_ub", "julian_date_ub >= event_alias.start_time_jd")])
@@ -80,6 +86,11 @@ V("c05-target-fields-swapped", "C05", "violation", "C05.R2", edits=[("physics/ti
 V("c05-near-miss-day", "C05", "violation", "C05.R3", edits=[("dynamics/special_perturbations.py", "self.init_julian_date + time / 86400", "self.init_julian_date + time / 86000")])
 V("c05-epoch-loop-excludes-last", "C05", "violation", "C05.R4", edits=[("scenario/clock.py", "while sim_time_iter <= self.time_span:", "while sim_time_iter < self.time_span:")])
 V("c05-microsecond-scale", "C05", "violation", "C05.R2", edits=[(SD, "date_time.second + date_time.microsecond / 1e6", "date_time.second + date_time.microsecond / 1e5")])
+V("c05-clock-step-min-output", "C05", "violation", "C05.R8", edits=[("scenario/clock.py", "        return cls(config.start_timestamp, time_span, config.physics_step_sec)", "        return cls(config.start_timestamp, time_span, min(config.physics_step_sec, config.output_step_sec))")])
+V("c05-physics-step-from-output", "C05", "violation", "C05.R8", edits=[(SC, "        return self.scenario_config.time.physics_step_sec", "        return self.scenario_config.time.output_step_sec\n\n    def _unused(self):\n        return self.scenario_config.time.physics_step_sec")])
+V("c05-agent-step-halved", "C05", "violation", "C05.R8", edits=[(AB, "        self._dt_step = clock.dt_step", "        self._dt_step = clock.dt_step / 2")])
+V("c05-n-clock-step-local", "C05", "pass", edits=[("scenario/clock.py", "        return cls(config.start_timestamp, time_span, config.physics_step_sec)", "        step = config.physics_step_sec\n        return cls(config.start_timestamp, time_span, step)")])
+V("c05-n-clock-step-keyword", "C05", "pass", edits=[("scenario/clock.py", "        return cls(config.start_timestamp, time_span, config.physics_step_sec)", "        return cls(config.start_timestamp, time_span, dt_step=config.physics_step_sec)")])
 V("c05-n-floor-division", "C05", "pass", edits=[(SC, "            steps = rounded_delta / self.physics_time_step\n", "            steps = rounded_delta // self.physics_time_step\n")])
 V("c05-n-round-seconds-then-timedelta", "C05", "pass", edits=[(SD, "    seconds_of_day = round(float(hour) * 3600 + float(minute) * 60 + float(second))\n    return datetime(int(year), int(month), int(day)) + timedelta(seconds=seconds_of_day)", "    return datetime(int(year), int(month), int(day), int(hour), int(minute)) + timedelta(seconds=round(second))")])
 V("c05-n-literal-86400", "C05", "pass", edits=[(SD, "float(self * (1 / (24 * 3600)))", "float(self * (1 / 86400))")])
@@ -566,6 +577,14 @@ for _name in sorted(_os.listdir(_NEUTRAL)) if _os.path.isdir(_NEUTRAL) else []:
         continue
     _meta = _json.load(open(_mp))
     V(f"neutral-{_name}", "ALL", _meta.get("expect", "pass"), patch=f"neutral/{_name}/patch.diff", note="behaviour-preserving refactoring from a sub-agent; every property's check must stay quiet")
+
+# ------------------------------------------------------------------------------------ factor conventions (C06.R7, C02.R12)
+V("c06-svd-rows-used-as-columns", "C06", "violation", "C06.R7", edits=[("physics/maths.py", "pol_factor = multi_dot((right_mat.T, diag(singular), right_mat))", "pol_factor = multi_dot((right_mat, diag(singular), right_mat.T))")])
+V("c06-n-polar-factor-from-left-vectors", "C06", "pass", edits=[("physics/maths.py", "    _, singular, right_mat = svd(sym_mat)\n    pol_factor = multi_dot((right_mat.T, diag(singular), right_mat))", "    left_mat, singular, _ = svd(sym_mat)\n    pol_factor = multi_dot((left_mat, diag(singular), left_mat.T))")])
+V("c06-n-polar-factor-matmul-operator", "C06", "pass", edits=[("physics/maths.py", "pol_factor = multi_dot((right_mat.T, diag(singular), right_mat))", "pol_factor = right_mat.T @ diag(singular) @ right_mat")])
+V("c02-noise-factor-numpy-cholesky-transposed", "C02", "violation", "C02.R12", edits=[("physics/measurements.py", "        self._sqrt_noise_covar = real(sqrtm(self._r_matrix))", "        self._sqrt_noise_covar = np_cholesky(self._r_matrix).T"), ("physics/measurements.py", "from scipy.linalg import norm, sqrtm", "from numpy.linalg import cholesky as np_cholesky\nfrom scipy.linalg import norm, sqrtm")])
+V("c02-n-noise-factor-lower-cholesky", "C02", "pass", edits=[("physics/measurements.py", "        self._sqrt_noise_covar = real(sqrtm(self._r_matrix))", "        self._sqrt_noise_covar = cholesky(self._r_matrix, lower=True)"), ("physics/measurements.py", "from scipy.linalg import norm, sqrtm", "from scipy.linalg import cholesky, norm, sqrtm")])
+V("c02-noise-root-of-input", "C02", "violation", "C02.R12", edits=[("physics/measurements.py", "        self._sqrt_noise_covar = real(sqrtm(self._r_matrix))", "        self._sqrt_noise_covar = real(sqrtm(r_matrix))")])
 
 # ------------------------------------------------------------------------------------ memo soundness / cache coherence
 RED = "physics/transforms/reductions.py"
